@@ -7,22 +7,31 @@ Open Scope R_scope.
 Definition rectR (a b c d : R) : RectR := {| x1 := a; y1 := b; x2 := c; y2 := d |}.
 Definition circR (a b c : R) : CircR := {| cx := a; cy := b; r := c |}.
 
+(** robust against harmless rewrites of the source (reordered conjuncts, `a >= b` written `b <= a`): both sides are
+    conjunctions of comparisons over the same atoms; equality of the booleans is proved through their truth conditions *)
+Ltac tie :=
+  cbn; numR;
+  unfold rect_containsRegion_rect, rect_containsRegion_circ, circ_containsRegion_rect;
+  unfold rect_containsPoint, circ_containsPoint, rectR, circR;
+  cbn [x1 y1 x2 y2 cx cy r];
+  apply Bool.eq_true_iff_eq; rewrite ?andb_true_iff, ?Rgeb_true, ?Rleb_true; intuition lra.
+
 Lemma tie_rect_point i a b c d x y :
   contains_point (Rect i a b c d) x y = rect_containsPoint (rectR a b c d) x y.
-Proof. reflexivity. Qed.
+Proof. tie. Qed.
 Lemma tie_circ_point i a b c x y :
   contains_point (Circ i a b c) x y = circ_containsPoint (circR a b c) x y.
-Proof. reflexivity. Qed.
+Proof. tie. Qed.
 
 Lemma tie_rect_rect i a b c d i' a' b' c' d' :
   contains_region (Rect i a b c d) (Rect i' a' b' c' d') = rect_containsRegion_rect (rectR a b c d) (rectR a' b' c' d').
-Proof. reflexivity. Qed.
+Proof. tie. Qed.
 Lemma tie_rect_circ i a b c d i' a' b' c' :
   contains_region (Rect i a b c d) (Circ i' a' b' c') = rect_containsRegion_circ (rectR a b c d) (circR a' b' c').
-Proof. reflexivity. Qed.
+Proof. tie. Qed.
 Lemma tie_circ_rect i a b c i' a' b' c' d' :
   contains_region (Circ i a b c) (Rect i' a' b' c' d') = circ_containsRegion_rect (circR a b c) (rectR a' b' c' d').
-Proof. reflexivity. Qed.
+Proof. tie. Qed.
 Lemma tie_circ_circ i a b c i' a' b' c' :
   contains_region (Circ i a b c) (Circ i' a' b' c') = circ_containsRegion_circ (circR a b c) (circR a' b' c').
 Proof.
